@@ -90,7 +90,8 @@ def scenario(exe, r, run, stats, witness):
                         stats["registrations"] += 1
                     val = int.from_bytes(o6[0], "big") if o6[0] else 0
                     ob.notifs.append((t, m["mid"], 2, val, m["payload"]))
-                    ob.mids[m["mid"]] = t
+                    # (a piggybacked reply carries the PEER's message id: it is not entered in
+                    # ob.mids, the server's own ids used for notifications may equal it)
                 return
             ob = by_tok.get((peer, tokh))
             if m["type"] == 2 and m["mid"] in pending_dereg and m["code"] != 0:
